@@ -2,7 +2,7 @@
    Only statements; proofs are [exact <lemma>] from Smtp/SmtpdProofs.v.
    Model (Smtp/Smtpd.v): qmail-smtpd.c command handlers (cmd_step for everything but DATA/QUIT,
    data_step for DATA), addrparse, bmfcheck, rcpthosts.c; commands.c line splitting in Base/Commands.v. *)
-From NQ Require Import Smtp.Smtpd Smtp.SmtpdProofs.
+From NQ Require Import Smtp.Smtpd Smtp.SmtpdProofs Smtp.SessionProofs.
 Local Open Scope N_scope.
 
 (* a message is handed to the queue only inside a transaction (MAIL accepted, not ended since) with at
@@ -85,6 +85,35 @@ Theorem rcpthosts_suffixes : forall d sfx,
   (sfx = d /\ d <> []) \/ exists p t, d = p ++ DOT :: t /\ sfx = DOT :: t /\ p <> [].
 Proof. exact dom_suffixes_spec_l. Qed.
 Print Assumptions rcpthosts_suffixes.
+
+(* ---- composition over the whole session: for EVERY input byte stream, configuration and queue outcomes ----
+   [session_log] is the session function returning, besides replies and submissions, the per-command log
+   (verb, argument, reply code; DATA outcomes); [session] is its projection.  The reference tracker
+   [ref_step]/[ref_subs]/[ref_ok] looks at that log only (never at the model's state): MAIL answered 250 opens
+   a transaction with that sender, RCPT answered 250 appends, HELO/EHLO/RSET answered 250 and a completed
+   DATA discard it. *)
+Theorem session_is_log_projection : forall fuel g st input qq,
+  session fuel g st input qq =
+  (log_codes (fst (session_log fuel g st input qq)), log_subs (fst (session_log fuel g st input qq)),
+   snd (session_log fuel g st input qq)).
+Proof. exact session_is_projection. Qed.
+Print Assumptions session_is_log_projection.
+Theorem submissions_match_reference : forall g input qq,
+  let l := fst (session_log (S (length input)) g st0 input qq) in
+  fst (fst (smtp_session g input qq)) = log_codes l /\
+  map env_of (snd (fst (smtp_session g input qq))) = ref_subs g None l /\ ref_ok g None l = true.
+Proof. exact smtp_session_submissions_match_reference. Qed.
+Print Assumptions submissions_match_reference.
+(* the same without a tracker: every submission is preceded in the log by a MAIL answered 250 with nothing
+   in between that resets the transaction; its sender is that MAIL's address and its recipients are exactly
+   the RCPTs answered 250 in between, at least one *)
+Theorem submission_sequenced : forall fuel g input qq sub,
+  In sub (snd (fst (session fuel g st0 input qq))) ->
+  exists pre0 arg mid c post,
+    fst (session_log fuel g st0 input qq) = pre0 ++ EvCmd s_mail arg 250 :: mid ++ EvDataDone c sub :: post /\
+    quiet mid = true /\ u_sender sub = parsed g arg /\ u_rcpts sub = accepted_rcpts g mid /\ u_rcpts sub <> [].
+Proof. exact session_submission_sequenced. Qed.
+Print Assumptions submission_sequenced.
 
 Example smtp_nonvacuous :
   let g := {| g_greeting := []; g_liphost := None; g_ipme := []; g_rcpthosts := Some [[111;107]]; g_morercpthosts := [];
